@@ -392,6 +392,35 @@ def r10(p, rep):
             rep.add("C12.R10", key, es.loc, ok, f"str({c.name}) is not a single group; Ellipsis.__str__ wraps it" if ok else f"str({c.name}) is not a single group and Ellipsis.__str__ prints it bare: an ellipsis whose operand is itself an {c.name} prints as e.g. 'a......', which does not re-parse - einx.sum('[a...]...', x) raises a SyntaxError about text the caller never wrote")
 
 
+def r11(p, rep):
+    rep.rule("C12.R11", "the text that is parsed as the caller's description is the caller's own string (errors then quote what the caller wrote)", "T-DER (first argument of the description parser at every entry point)", floor=2)
+    targets = {p.func("_parse_op", "adapter.einx_from_namedtensor")}
+    n = 0
+    for f in p.funcs.values():
+        if not f.module.name.startswith("einx._src.") or f in targets:
+            continue
+        for c in walk_no_nested(f.node):
+            if not isinstance(c, ast.Call) or not c.args:
+                continue
+            r = resolve_callee(p, c, f.module)
+            if not (r and r[0] == "func" and r[1] in targets):
+                continue
+            n += 1
+            a0 = c.args[0]
+            origin = common.origin_params(f, a0)
+            plain = isinstance(a0, ast.Name) and a0.id in (set(f.params) | {q for g in _enclosing11(f) for q in g.params})
+            rep.add("C12.R11", f"{f.qualname}:{r[1].name}:description", f"{f.module.rel}:{c.lineno}", plain, f"`{norm(a0)}` is the caller's description, unchanged" if plain else f"`{norm(a0)[:50]}` is parsed in place of the caller's description: syntax errors quote text the caller never wrote (einx.solve_shapes('a (', x) reports the expression \"a ( ->\")")
+    if n < 2:
+        raise AnalysisError(f"unrecognised idiom: expected >= 2 call sites of _parse_op, found {n}")
+
+
+def _enclosing11(f):
+    g = f.parent
+    while g is not None:
+        yield g
+        g = g.parent
+
+
 def run(p, rep, tier):
     r8(p, rep)
     rep.rule("C12.R1", "parser dispatch chains cover their tables / node families", "T-EXH", floor=5)
@@ -406,4 +435,5 @@ def run(p, rep, tier):
     r7(p, rep)
     r9(p, rep)
     r10(p, rep)
+    r11(p, rep)
     rep.info["undecided"] = "structural round-trip equality for all strings and termination of the recursive descent; only the alphabet/progress/dispatch/position clauses are decided"
